@@ -158,7 +158,7 @@ class LineRun:
                 for k, d in enumerate(spec['horizon']):
                     tr = bool(traces[k]) if k < len(traces) else False
                     t_before = self.model.env.now
-                    self.model.system.simulate(d, trace=tr, print_summary=False)
+                    self.simulate_to(d, tr)
                     if self.prop == 'C01' and self.model.env.now != t_before + d and not self.failed:
                         self.report('run_window', f'System.simulate({d!r}) called at {t_before!r} ended with the clock at '
                                     f'{self.model.env.now!r}, expected {t_before + d!r}')
@@ -206,6 +206,28 @@ class LineRun:
         if status in ('crash', 'budget') and not self.failed:
             self.judge_crash()
         return status
+
+    def simulate_to(self, d, tr):
+        """System.simulate(d); when user code of the workload fails inside an event (HarnessError), the caller
+        catches the exception and carries on to the same end instant."""
+        import contextlib
+        import io
+        env = self.model.env
+        t_end = env.now + d
+        caught = 0
+        for _ in range(100):
+            try:
+                if caught:
+                    with contextlib.redirect_stdout(io.StringIO()):
+                        self.model.system.simulate(t_end - env.now, trace=tr, print_summary=False)
+                else:
+                    self.model.system.simulate(d, trace=tr, print_summary=False)
+                # (a run cut short by an exception leaves its end marker behind; a later run stops there)
+                if not caught or env.now >= t_end:
+                    return
+            except build_mod.HarnessError:
+                caught += 1
+                self.count('user_code_exceptions_caught_and_continued')
 
     def poke(self):
         """Pre-start perturbation: add_value before the first simulate is expected to raise (no
@@ -270,7 +292,19 @@ def run_profile(sh, prop, profile, n_models, monitors, nontrivial=None, prefix='
             ov.setdefault('n_sources', (2, 4))
             ov['max_events'] = 60000
             sh.count(prefix + 'large_models')
+        elif i % 25 == 7:
+            # long histories on small models: hundreds to thousands of parts, cycles and records
+            ov = dict(overrides or {})
+            ov.setdefault('n_stages', (1, 3))
+            ov.setdefault('n_sources', (1, 1))
+            ov['horizon'] = (400, 1200)
+            ov['script_rate'] = 0.04
+            ov['budget'] = [None, None, 1500, 700]
+            ov['max_events'] = 200000
+            sh.count(prefix + 'long_history_models')
         spec = modelgen.generate(seed, profile, tie=tie, overrides=ov)
+        if ov and ov.get('max_events') == 200000:
+            spec['long'] = True
         run_spec(sh, prop, spec, monitors, nontrivial, prefix)
 
 
